@@ -1032,6 +1032,20 @@ func (hash *SexpHash) ShortName() string {
 }
 
 func (hash *SexpHash) SexpString(ps *PrintState) string {
+	// a hash can be made to contain itself ((hset h k: h)): the hashes on
+	// the path being printed are remembered, and one met again is elided.
+	if ps == nil {
+		ps = NewPrintState()
+	}
+	if ps.GetSeen(hash) {
+		if hash.TypeName == "hash" {
+			return "{...}"
+		}
+		return " (" + hash.TypeName + " ...)"
+	}
+	ps.SetSeen(hash, "SexpHash")
+	defer delete(ps.Seen, hash)
+
 	indInner := ""
 	indent := ps.GetIndent()
 	innerPs := ps.AddIndent(4) // generates a fresh new PrintState
